@@ -43,7 +43,7 @@ import os
 import re
 import warnings
 from io import StringIO
-from itertools import chain, zip_longest
+from itertools import zip_longest
 from pathlib import Path
 from typing import Any, Callable, Iterable
 
@@ -279,9 +279,7 @@ class DecFileParser:
         if self._additional_decay_models is None:
             self._additional_decay_models = models
         else:
-            self._additional_decay_models = chain.from_iterable(
-                (self._additional_decay_models, models)
-            )
+            self._additional_decay_models = (*self._additional_decay_models, *models)
 
     def _load_grammar(
         self,
@@ -325,13 +323,6 @@ class DecFileParser:
         and inject the names of the EvtGen models.
         """
 
-        if self._additional_decay_models is None:
-            decay_models = known_decay_models  # type: tuple[str, ...]
-        else:
-            decay_models = tuple(
-                chain.from_iterable([known_decay_models, self._additional_decay_models])
-            )
-
         def edit_model_name_terminals(t: TerminalDef) -> None:
             """
             Edits the terminals of the grammar to replace the model name placeholder with the actual names of the models,
@@ -339,6 +330,11 @@ class DecFileParser:
             The decay models are sorted by length and escaped to match the default Lark behavior.
             """
 
+            # Read the additional models when the parser is built, not when the grammar was loaded
+            decay_models: tuple[str, ...] = (
+                *known_decay_models,
+                *(self._additional_decay_models or ()),
+            )
             modelstr = rf"(?:{'|'.join(re.escape(dm) for dm in sorted(decay_models, key=len, reverse=True))})"
             if t.name == "MODEL_NAME":
                 t.pattern.value = t.pattern.value.replace(
